@@ -103,6 +103,7 @@ def run_task(t):
             for dd in range(d):
                 sc.real_eq('derivative %d continuous at interior knot %d [dim %d]' % (k, i + 1, dd), 'L%d_%d.%d' % (i, k, dd),
                            sc.enc.out('R%d_%d.%d' % (i, k, dd)))
+    sc.path_forced()
     sc.side_conditions()
     return [sc]
 
